@@ -542,7 +542,19 @@ fn handle_dead_child(sc: &dyn Scenario, tier: Tier, journal: &str, end: ChildEnd
     let (clause, sig) = crash_sig(prop, &e, c.hang);
     let is_hang = sig.contains(":hang/");
     let Ok(txt) = std::fs::read_to_string(&file) else {
-        println!("HARNESS-ERROR: probe of stage {} run {} left no case file", c.stage, c.run);
+        // the probe died before it had written the case: the process is killed while the *workload*
+        // of this run is being produced (the producer serialises well-formed messages with the
+        // crate's own writer). No claimed property quantifies over that; it is not a verdict on this one.
+        println!(
+            "HARNESS-ERROR: stage {} run {} (seed {}) kills the process ({}) while its workload is being produced, i.e. inside the crate's writer on a well-formed message or inside the generator; the check cannot run and gives no verdict",
+            c.stage,
+            c.run,
+            seed,
+            match &e {
+                ChildEnd::Signal(s) => signal_name(*s),
+                _ => "timeout".into(),
+            }
+        );
         return 2;
     };
     let _ = std::fs::remove_file(&file);
